@@ -154,7 +154,10 @@ inductive Verdict where
 def Verdict.rank : Verdict → Nat
   | .bad _ => 3 | .known _ => 2 | .ok => 1 | .na => 0
 
-def Verdict.join (a b : Verdict) : Verdict := if b.rank > a.rank then b else a
+def Verdict.join (a b : Verdict) : Verdict :=
+  match a, b with
+  | .bad x, .bad y => .bad (x ++ "+" ++ y)
+  | _, _ => if b.rank > a.rank then b else a
 
 def Verdict.show : Verdict → String
   | .ok => "ok" | .na => "?" | .known k => "known:" ++ k | .bad y => "bad " ++ y
@@ -260,9 +263,11 @@ def judgeEntry (s : OSt) (e : Entry) (blocked : Option Nat) (sleeps : List Int) 
   let mine := s.rules.filter fun o => o.rule.res = e.res
   let nThr := (mine.filter fun o => o.rule.cb ≠ 0).length
   let sleepNs := sleeps.foldl (· + ·) 0
-  let s1 := { s with nowNs := s.nowNs + sleepNs }
+  let s1 := { s with nowNs := (s.nowNs + sleepNs) % two64, mono := s.mono && decide (s.nowNs + sleepNs < two64) }
   if !s.mono || nThr ≥ 2 then (s1, .na) else
-  if sleeps.length > 1 || sleeps.any (fun x => x ≤ 0 || x % 1000000 ≠ 0) then (s1, .bad "sleeps") else
+  if sleeps.length > 1 || sleeps.any (fun x => x ≤ 0 || x % 1000000 ≠ 0) then
+    -- a wait beyond the int64 nanosecond range (absurd MaxQueueingTimeMs) is outside the guarded region
+    (s1, if mine.any (fun o => o.tainted || decide (o.rule.mq ≥ 1000000000000)) then .na else .bad "sleeps") else
   match blocked with
   | some g => if !(mine.any fun o => o.gid = g) then (s1, .bad "blocked-by-foreign-rule") else go s1 mine
   | none => go s1 mine
